@@ -3,7 +3,7 @@
    [wf_files fs = true] is the invariant of a shard directory: file names (TSM and tombstone)
    distinct and in FileStore order, tombstones only where a tombstone file exists.  It is
    executable and re-checked on every observed source state by Run.v. *)
-From Verif Require Import C18.Model C18.Names C18.Proofs C18.ProofsCopy C18.ProofsExport C18.ProofsImport C18.ProofsIncr C18.ProofsSeq C18.Spec C18.Run C18.ProofsLink.
+From Verif Require Import C18.Model C18.Names C18.Proofs C18.ProofsCopy C18.ProofsExport C18.ProofsImport C18.ProofsIncr C18.ProofsSeq C18.Spec C18.Run C18.ProofsLink C18.ProofsRetained.
 From VerifGen Require Import Consts.
 Open Scope Z_scope.
 
@@ -261,6 +261,28 @@ Proof.
   intros k lo hi asc. rewrite Hq. unfold s0. apply write_snapshot_read.
 Qed.
 Print Assumptions backup_waits_for_snapshot_in_flight.
+
+(* A backup taken after a cache snapshot whose write failed.  The cache then holds a retained
+   snapshot AND a live store; one WriteSnapshot only writes the retained snapshot again (the
+   pinned tree's CreateSnapshot did just that and the archive lacked the live cache: repaired,
+   see known_findings.json).  Engine.flushCache writes the retained snapshot out as a file of
+   its own ([flush_retained], which changes no read) and then snapshots the live cache: the
+   restored copy answers every read as the source did. *)
+Theorem backup_after_failed_snapshot :
+  forall (stem0 stem : name) (now0 now : Z) (base : name) (s : shard),
+  let s1 := flush_retained stem0 now0 s in
+  wf_files (sh_files (write_snapshot stem now s1)) = true ->
+  exists s' ms d,
+    backup SnapIdle stem now base None s1 = Some (s', ms) /\
+    restore_all base empty_dshard ms = Some d /\
+    forall k lo hi asc, dshard_read d k lo hi asc = shard_read s k lo hi asc.
+Proof. exact backup_after_retained_lemma. Qed.
+Print Assumptions backup_after_failed_snapshot.
+
+Theorem flush_retained_preserves_reads :
+  forall stem now s k lo hi asc, shard_read (flush_retained stem now s) k lo hi asc = shard_read s k lo hi asc.
+Proof. exact flush_retained_read. Qed.
+Print Assumptions flush_retained_preserves_reads.
 
 (* why the wait matters (the pinned tree's finding c18-backup-busy-skips-cache, repaired by the
    mutex): if the snapshotter could stay busy for all attempts, Backup would proceed without the
